@@ -1,5 +1,8 @@
-(** C08 — forwarding headers (proxy/http_headers.go, proxy/http_proxy.go ServeHTTP),
-    the code as it is after the repairs afbb806 (F-C08-2) and 7dd13e1 (F-C08-1).
+(** C08 — forwarding headers (proxy/http_headers.go, proxy/http_proxy.go ServeHTTP), the code as
+    it is after the four repairs afbb806 (F-C08-2), 7dd13e1 (F-C08-1), 35aa11b (F-C08-3) and
+    216337c (F-C08-4): no finding region is left, every clause is proved for ALL client header
+    maps, requests and sane configurations; the four [_refuted] theorems are about the
+    [_unrepaired] definitions and each is paired with the same witness on the current model.
     This file contains only statements, [exact], and [Print Assumptions]. *)
 From Coq Require Import String List NArith ZArith Bool.
 From Fabio Require Import Lib.Outcome Lib.Bytes Model.Headers Model.HeadersSpec Proofs.Headers.
@@ -12,8 +15,9 @@ Local Open Scope N_scope.
    often) the client sent it, afterwards it has exactly one value, the peer. *)
 Theorem C08_clientip_overwritten : forall cfg strip r peer h',
   add_headers cfg strip r = Ok h' -> r_peer r = Some peer ->
-  c_clientip cfg <> [] -> c_clientip cfg <> K_XFF -> c_clientip cfg <> K_XRI ->
+  c_clientip cfg <> [] -> c_clientip cfg <> K_XFF ->
   mem (canon_key (c_clientip cfg)) [K_XFF; K_XFP; K_XFPORT; K_XFH; K_XFPREFIX; K_FWD] = false ->
+  canon_key (c_clientip cfg) <> K_CONN ->
   off (canon_key (c_clientip cfg)) (c_tlsheader cfg) ->
   hfind h' (canon_key (c_clientip cfg)) = Some [peer].
 Proof. exact clientip_overwritten. Qed.
@@ -30,7 +34,7 @@ Print Assumptions C08_xrealip_rule.
 (* The configured TLS header is present with the configured value exactly when the client
    connection used TLS, whatever the client sent. *)
 Theorem C08_tls_header_iff_tls : forall cfg strip r h',
-  add_headers cfg strip r = Ok h' -> c_tlsheader cfg <> [] ->
+  add_headers cfg strip r = Ok h' -> c_tlsheader cfg <> [] -> canon_key (c_tlsheader cfg) <> K_CONN ->
   hfind h' (canon_key (c_tlsheader cfg)) = if is_tls r then Some [c_tlsvalue cfg] else None.
 Proof. exact tls_header_iff_tls. Qed.
 Print Assumptions C08_tls_header_iff_tls.
@@ -107,15 +111,29 @@ Theorem C08_xff_last_is_peer : forall cfg t uuid r peer up sts,
 Proof. exact xff_last_is_peer. Qed.
 Print Assumptions C08_xff_last_is_peer.
 
-(* Whatever addHeaders decided for a managed header reaches the upstream unchanged unless
-   (plain requests) the client's Connection header names it. *)
+(* unlistManagedHeaders (216337c): afterwards NO token of the Connection header names a managed
+   header, for every header map -- any case, spacing, empty tokens, repetition, several values. *)
+Theorem C08_unlist_tokens_unmanaged : forall cfg h x,
+  In x (conn_tokens (unlist_managed cfg h)) -> managed_key cfg (canon_key x) = false.
+Proof. exact unlist_tokens_unmanaged. Qed.
+Print Assumptions C08_unlist_tokens_unmanaged.
+
+(* ... hence after the reverse proxy's hop-by-hop deletion every managed header survives, for ANY
+   Connection header (the map handed to ReverseProxy is [unlist_managed cfg h]) ... *)
+Theorem C08_rp_keeps_managed : forall cfg peer h k,
+  managed_key cfg k = true -> k <> K_XFF -> mem k hop_headers = false ->
+  hfind (rp_out peer (unlist_managed cfg h)) k = hfind h k.
+Proof. exact rp_keeps_managed. Qed.
+Print Assumptions C08_rp_keeps_managed.
+
+(* ... and whatever addHeaders decided for a managed header reaches the upstream unchanged, on
+   the websocket path and through the (modelled) ReverseProxy, whatever Connection says. *)
 Theorem C08_serve_preserves : forall cfg t uuid r up sts k,
   serve cfg t uuid r = Ok (up, sts) -> wf_hdr (r_hdr r) = true ->
+  managed_key cfg k = true -> k <> K_XFF -> mem k hop_headers = false ->
   exists peer h, r_peer r = Some peer /\
     add_headers cfg (t_strip t) (req_with_reqid cfg uuid r) = Ok h /\
-    (k <> K_XFF -> mem k hop_headers = false ->
-     (takes_ws_path h = true \/ forall x, In x (conn_tokens h) -> canon_key x <> k) ->
-     hfind up k = hfind h k).
+    hfind up k = hfind h k.
 Proof. exact serve_preserves. Qed.
 Print Assumptions C08_serve_preserves.
 
@@ -132,12 +150,11 @@ Print Assumptions C08_serve_sts_clause.
 
 (* ALL clauses of the property (client-IP header, X-Forwarded-For, X-Real-Ip, TLS header,
    X-Forwarded-Proto/-Port/-Host, Forwarded) hold at the upstream for every client header map a
-   client can produce, every request and every sane configuration outside the two open finding
-   regions (ClientIPHeader = X-Real-Ip, Connection naming a managed header); every route
-   target, host= / host=dst included, since the repair 7dd13e1 (this is the boolean the correspondence run evaluates on the real code's output). *)
+   client can produce, every request, every route target and every sane configuration: no
+   finding region is excluded any more (this is the boolean the correspondence run evaluates on
+   the real code's output; the name is kept from the time when regions were excluded). *)
 Theorem C08_all_clauses_on_domain : forall cfg t uuid r peer up sts,
   cfg_sane cfg = true -> wf_hdr (r_hdr r) = true ->
-  no_region cfg (r_hdr r) = true ->
   serve cfg t uuid r = Ok (up, sts) -> r_peer r = Some peer ->
   all_hold (clauses cfg (r_hdr r) peer (r_host r) (is_tls r) true up) = true.
 Proof. exact serve_clauses_on_domain. Qed.
@@ -146,19 +163,30 @@ Print Assumptions C08_all_clauses_on_domain.
 (* X-Forwarded-Host / -Port describe the host the client asked for whatever the route's host=
    option says (no region 1 any more: the rewrite of r.Host runs after addHeaders, 7dd13e1). *)
 Theorem C08_serve_host_port_truthful : forall cfg t uuid r peer up sts,
-  cfg_sane cfg = true -> wf_hdr (r_hdr r) = true -> no_region cfg (r_hdr r) = true ->
+  cfg_sane cfg = true -> wf_hdr (r_hdr r) = true ->
   serve cfg t uuid r = Ok (up, sts) -> r_peer r = Some peer ->
   (hget (r_hdr r) K_XFH = [] -> r_host r <> [] -> hfind up K_XFH = Some [r_host r]) /\
   (hget (r_hdr r) K_XFPORT = [] -> hfind up K_XFPORT = Some [local_port (r_host r) (is_tls r)]).
 Proof. exact serve_host_port_truthful. Qed.
 Print Assumptions C08_serve_host_port_truthful.
 
+Theorem C08_serve_managed_survive_connection : forall cfg t uuid r peer up sts,
+  cfg_sane cfg = true -> wf_hdr (r_hdr r) = true ->
+  serve cfg t uuid r = Ok (up, sts) -> r_peer r = Some peer ->
+  (c_clientip cfg <> [] -> canon_key (c_clientip cfg) <> K_XFF -> hfind up (canon_key (c_clientip cfg)) = Some [peer]) /\
+  (c_tlsheader cfg <> [] ->
+   hfind up (canon_key (c_tlsheader cfg)) = if is_tls r then Some [c_tlsvalue cfg] else None) /\
+  cl_xri (r_hdr r) up peer = true.
+Proof. exact serve_managed_survive_connection. Qed.
+Print Assumptions C08_serve_managed_survive_connection.
+
 Theorem C08_clauses_nonvacuous :
   let hdr := [(K_XFF, [bs "6.6.6.6"; bs "7.7.7.7"]); (bs "X-Client-Ip", [bs "6.6.6.6"; bs "8.8.8.8"]);
-              (bs "X-Tls", [bs "true"]); (K_XRI, [[]; bs "6.6.6.6"]); (K_CONN, [bs "keep-alive, X-Forwarded-For"])] in
+              (bs "X-Tls", [bs "true"]); (K_XRI, [[]; bs "6.6.6.6"]);
+              (K_CONN, [bs "keep-alive, X-Forwarded-For ,x-client-ip"; bs " X-TLS,X-REAL-IP"])] in
   let r := ex_req None hdr in
   exists up sts,
-    cfg_sane ex_cfg = true /\ wf_hdr hdr = true /\ no_region ex_cfg hdr = true /\
+    cfg_sane ex_cfg = true /\ wf_hdr hdr = true /\
     serve ex_cfg (ex_tgt []) [] r = Ok (up, sts) /\
     all_hold (clauses ex_cfg hdr ex_peer (r_host r) false true up) = true /\
     hfind up K_XFF = Some [bs "1.2.3.4"] /\ hfind up (bs "X-Client-Ip") = Some [ex_peer] /\
@@ -215,21 +243,34 @@ Theorem C08_xff_capital_websocket_repaired :
 Proof. exact xff_capital_websocket_repaired. Qed.
 Print Assumptions C08_xff_capital_websocket_repaired.
 
-(* F-C08-3: ClientIPHeader = "X-Real-Ip" lets a forged X-Real-Ip through *)
+(* F-C08-3, REPAIRED in /repo by 35aa11b: ClientIPHeader = "X-Real-Ip" let a forged X-Real-Ip
+   through.  About the code before the repair ([serve_xri_guard_unrepaired]); the same witness on
+   the current model follows. *)
 Theorem C08_clientip_xrealip_refuted :
   exists cfg t uuid r up sts,
     cfg_sane cfg = true /\ wf_hdr (r_hdr r) = true /\
-    serve cfg t uuid r = Ok (up, sts) /\
+    serve_xri_guard_unrepaired cfg t uuid r = Ok (up, sts) /\
     F_cih_xrealip_forged cfg (r_hdr r) = true /\
     hfind up (canon_key (c_clientip cfg)) = Some [bs "6.6.6.6"] /\ cl_clientip cfg up ex_peer = false.
 Proof. exact clientip_xrealip_refuted. Qed.
 Print Assumptions C08_clientip_xrealip_refuted.
 
-(* F-C08-4: Connection naming managed headers strips them (plain requests) *)
+Theorem C08_clientip_xrealip_repaired :
+  exists up sts,
+    serve ex_cfg_xri (ex_tgt []) [] (ex_req None [(K_XRI, [bs "6.6.6.6"])]) = Ok (up, sts) /\
+    F_cih_xrealip_forged ex_cfg_xri [(K_XRI, [bs "6.6.6.6"])] = true /\
+    hfind up K_XRI = Some [ex_peer] /\ cl_clientip ex_cfg_xri up ex_peer = true.
+Proof. exact clientip_xrealip_repaired. Qed.
+Print Assumptions C08_clientip_xrealip_repaired.
+
+(* F-C08-4, REPAIRED in /repo by 216337c: Connection naming managed headers stripped them (plain
+   requests).  About the code before the repair ([serve_conn_unrepaired]); the same witness on the
+   current model follows; the for-all statements are C08_unlist_tokens_unmanaged,
+   C08_rp_keeps_managed, C08_serve_preserves and C08_serve_managed_survive_connection above. *)
 Theorem C08_connection_strips_managed_refuted :
   exists cfg t uuid r up sts,
     cfg_sane cfg = true /\ wf_hdr (r_hdr r) = true /\
-    serve cfg t uuid r = Ok (up, sts) /\
+    serve_conn_unrepaired cfg t uuid r = Ok (up, sts) /\
     F_conn_lists (r_hdr r) (canon_key (c_clientip cfg)) = true /\
     hfind up (canon_key (c_clientip cfg)) = None /\ hfind up K_XRI = None /\
     hfind up (canon_key (c_tlsheader cfg)) = None /\ is_tls r = true /\
@@ -237,3 +278,14 @@ Theorem C08_connection_strips_managed_refuted :
     cl_tls cfg (is_tls r) up = false.
 Proof. exact connection_strips_managed_refuted. Qed.
 Print Assumptions C08_connection_strips_managed_refuted.
+
+Theorem C08_connection_strips_managed_repaired :
+  let r := ex_req (Some (771, 4865)) ex_conn_hdr in
+  exists up sts,
+    serve ex_cfg (ex_tgt []) [] r = Ok (up, sts) /\
+    F_conn_lists (r_hdr r) (canon_key (c_clientip ex_cfg)) = true /\
+    hfind up (bs "X-Client-Ip") = Some [ex_peer] /\ hfind up K_XRI = Some [ex_peer] /\
+    hfind up (bs "X-Tls") = Some [bs "true"] /\
+    all_hold (clauses ex_cfg (r_hdr r) ex_peer (r_host r) true true up) = true.
+Proof. exact connection_strips_managed_repaired. Qed.
+Print Assumptions C08_connection_strips_managed_repaired.
